@@ -10,6 +10,10 @@
                                       |         then, when spy=1, ` opens=<name>,<name>` (`opens=none`): the names
                                       |         passed to FileSystem.Open, each spelled path.Clean("/"+name)
                                       |         inm: `-` absent, `<id>` the ETag of file id, `j` junk
+  BURST <k> (<method> <path> <inm>)+  | `burst <outcome>;<outcome>;…`  k copies of each listed request are inside the
+                                      |         instance at the same time.  `staticDecide` is a function of the options, the
+                                      |         request and the file system — there is no state of the middleware for other
+                                      |         requests to change — so every copy has the outcome of the request served alone
   CLEAN <s>                           | `clean <path.Clean("/"+s)> <path.Clean(s)> <ok|rej>`
                                       |         (rej = http.Dir.Open refuses the name)
   JOIN <a> <b>                        | `join <path.Join(a,b)>`
@@ -82,6 +86,16 @@ def session (args : List String) (lines : List (List String)) : List String :=
       let up := hexOf p
       let r := staticDecide o etagOf (hexOf m) up (inmOf inm) (fsOf t)
       showOutcome up r.out ++ (if spy then " " ++ showOpens r.opens else "")
+    | "BURST" :: _k :: reqs =>
+      let rec each : List String → Option (List String)
+        | [] => some []
+        | m :: p :: inm :: rest =>
+          let up := hexOf p
+          (each rest).map fun r => showOutcome up (staticDecide o etagOf (hexOf m) up (inmOf inm) (fsOf t)).out :: r
+        | _ => none
+      match each reqs with
+      | some (x :: xs) => "burst " ++ joinWith ";" (x :: xs)
+      | _ => "bad-op"
     | ["CLEAN", s] =>
       let b := hexOf s
       s!"clean {(cleanRooted b).toHex} {(pathClean b).toHex} {if (dirOpenPath root b).isSome then "ok" else "rej"}"
